@@ -33,16 +33,46 @@ type reseq struct {
 
 func (r *reseq) key() string { return fmt.Sprintf("%s:reseq#%d", funcName(r.pkg, r.fd), r.index) }
 
-// orderOperand: x.order, x.Order, x.Order() -> x
-func orderOperand(e ast.Expr) ast.Expr {
+// numberOperand: X.f / X.m() (an integer read off X) -> X.  The field or method name is not looked at:
+// what makes it the item's number is that the parking branch stores X under it.
+func numberOperand(info *types.Info, e ast.Expr) ast.Expr {
 	switch x := ast.Unparen(e).(type) {
 	case *ast.SelectorExpr:
-		if strings.EqualFold(x.Sel.Name, "order") {
+		if v, ok := info.ObjectOf(x.Sel).(*types.Var); ok && v.IsField() {
 			return x.X
 		}
 	case *ast.CallExpr:
-		if sel, ok := x.Fun.(*ast.SelectorExpr); ok && sel.Sel.Name == "Order" && len(x.Args) == 0 {
+		if sel, ok := x.Fun.(*ast.SelectorExpr); ok && len(x.Args) == 0 {
 			return sel.X
+		}
+	}
+	return nil
+}
+
+// orderOperand is kept for the callers that only know batches: b.Order() / b.order -> b.
+func orderOperand(e ast.Expr) ast.Expr {
+	switch x := ast.Unparen(e).(type) {
+	case *ast.SelectorExpr:
+		return x.X
+	case *ast.CallExpr:
+		if sel, ok := x.Fun.(*ast.SelectorExpr); ok && len(x.Args) == 0 {
+			return sel.X
+		}
+	}
+	return nil
+}
+
+// refObj identifies a mutable place that is either a local variable or a field of a local struct
+// variable (state.next): the variable's object, resp. the field's object.
+func refObj(info *types.Info, e ast.Expr) types.Object {
+	switch x := ast.Unparen(e).(type) {
+	case *ast.Ident:
+		return info.ObjectOf(x)
+	case *ast.SelectorExpr:
+		if v, ok := info.ObjectOf(x.Sel).(*types.Var); ok && v.IsField() {
+			if _, isId := ast.Unparen(x.X).(*ast.Ident); isId {
+				return v
+			}
 		}
 	}
 	return nil
@@ -54,77 +84,102 @@ func findResequencers(c *Ctx) []*reseq {
 		info := p.TypesInfo
 		defs := collectDefs(info, fd)
 		n := 0
-		ast.Inspect(fd.Body, func(nd ast.Node) bool {
-			ifs, ok := nd.(*ast.IfStmt)
-			if !ok || ifs.Else == nil {
-				return true
-			}
+		try := func(ifs *ast.IfStmt, rest []ast.Stmt) {
 			cond, ok := ast.Unparen(ifs.Cond).(*ast.BinaryExpr)
 			if !ok || (cond.Op != token.EQL && cond.Op != token.NEQ) {
-				return true
+				return
 			}
-			// number == next {emit} else {park}   or the inverted form   number != next {park} else {emit}
-			emitBlock, _ := ast.Stmt(ifs.Body).(*ast.BlockStmt)
-			storeBlock, _ := ifs.Else.(*ast.BlockStmt)
-			if cond.Op == token.NEQ {
-				emitBlock, storeBlock = storeBlock, emitBlock
+			// forms:  number == next {emit} else {park}  |  number != next {park} else {emit}
+			//         number != next {park; continue}  emit…   (rest of the loop body)
+			var emitList []ast.Stmt
+			var storeBlock *ast.BlockStmt
+			eb, _ := ifs.Else.(*ast.BlockStmt)
+			switch {
+			case cond.Op == token.EQL && eb != nil:
+				emitList, storeBlock = ifs.Body.List, eb
+			case cond.Op == token.NEQ && eb != nil:
+				emitList, storeBlock = eb.List, ifs.Body
+			case cond.Op == token.NEQ && ifs.Else == nil && len(ifs.Body.List) > 0 && rest != nil:
+				if br, ok := ifs.Body.List[len(ifs.Body.List)-1].(*ast.BranchStmt); ok && br.Tok == token.CONTINUE {
+					emitList, storeBlock = rest, &ast.BlockStmt{Lbrace: ifs.Body.Lbrace, List: ifs.Body.List[:len(ifs.Body.List)-1], Rbrace: ifs.Body.Rbrace}
+				}
 			}
-			if emitBlock == nil || storeBlock == nil {
-				return true
+			if emitList == nil || storeBlock == nil {
+				return
 			}
-			item, cnt := orderOperand(cond.X), cond.Y
-			if item == nil {
-				item, cnt = orderOperand(cond.Y), cond.X
-			}
-			cid, ok := ast.Unparen(cnt).(*ast.Ident)
-			if item == nil || !ok {
-				return true
-			}
-			next := info.ObjectOf(cid)
-			if next == nil {
-				return true
-			}
-			// else branch stores into a map
+			// the parking store  M[number] = X  tells which side is the item's number
 			var buf types.Object
-			if eb := storeBlock; eb != nil {
-				for _, st := range eb.List {
-					if as, ok := st.(*ast.AssignStmt); ok && len(as.Lhs) == 1 {
-						if ix, ok := as.Lhs[0].(*ast.IndexExpr); ok {
-							if id, ok := ast.Unparen(ix.X).(*ast.Ident); ok {
-								if tv, ok := info.Types[ix.X]; ok {
-									if _, isMap := tv.Type.Underlying().(*types.Map); isMap {
-										buf = info.ObjectOf(id)
-									}
-								}
-							}
-						}
+			var item, cnt ast.Expr
+			for _, st := range storeBlock.List {
+				as, ok := st.(*ast.AssignStmt)
+				if !ok || len(as.Lhs) != 1 || len(as.Rhs) != 1 {
+					continue
+				}
+				ix, ok := as.Lhs[0].(*ast.IndexExpr)
+				if !ok {
+					continue
+				}
+				tv, ok := info.Types[ix.X]
+				if !ok {
+					continue
+				}
+				if _, isMap := tv.Type.Underlying().(*types.Map); !isMap {
+					continue
+				}
+				for _, side := range [][2]ast.Expr{{cond.X, cond.Y}, {cond.Y, cond.X}} {
+					recv := numberOperand(info, side[0])
+					if recv != nil && types.ExprString(ix.Index) == types.ExprString(side[0]) && types.ExprString(ast.Unparen(as.Rhs[0])) == types.ExprString(recv) {
+						item, cnt = recv, side[1]
+						buf = refObj(info, ix.X)
 					}
 				}
 			}
-			if buf == nil {
-				return true
+			if buf == nil || item == nil {
+				return
 			}
-			// the counter must be incremented in the then-branch (calls of parameterless local closures inlined)
+			next := refObj(info, cnt)
+			if next == nil {
+				return
+			}
+			// the counter must be incremented in the in-order branch (calls of parameterless local closures inlined)
 			hasInc := false
 			var drain *ast.ForStmt
-			then := inlineLocalCalls(info, defs, emitBlock.List)
-			for _, st := range then {
-				if inc, ok := st.(*ast.IncDecStmt); ok {
-					if id, ok := inc.X.(*ast.Ident); ok && info.ObjectOf(id) == next {
-						hasInc = true
+			var then []ast.Stmt
+			for _, st := range inlineLocalCalls(info, defs, emitList) {
+				// for x, ok := M[next]; ok; x, ok = M[next] { body }   ==   x, ok := M[next]; for ok { body; x, ok = M[next] }
+				if f, ok := st.(*ast.ForStmt); ok && f.Init != nil && f.Post != nil {
+					if _, isId := ast.Unparen(f.Cond).(*ast.Ident); isId {
+						then = append(then, f.Init)
+						st = &ast.ForStmt{For: f.For, Cond: f.Cond, Body: &ast.BlockStmt{Lbrace: f.Body.Lbrace, List: append(append([]ast.Stmt{}, f.Body.List...), f.Post), Rbrace: f.Body.Rbrace}}
 					}
+				}
+				then = append(then, st)
+			}
+			for _, st := range then {
+				if inc, ok := st.(*ast.IncDecStmt); ok && refObj(info, inc.X) == next {
+					hasInc = true
 				}
 				if f, ok := st.(*ast.ForStmt); ok && f.Init == nil && f.Post == nil {
 					drain = f
 				}
 			}
 			if !hasInc && drain == nil {
-				return true
+				return
 			}
 			n++
 			r := &reseq{pkg: p, fd: fd, ifs: ifs, next: next, item: item, buf: buf, drain: drain, index: n, then: then, store: storeBlock}
 			r.itemObj = rootObj(info, item)
 			out = append(out, r)
+		}
+		ast.Inspect(fd.Body, func(nd ast.Node) bool {
+			switch x := nd.(type) {
+			case *ast.BlockStmt:
+				for i, st := range x.List {
+					if ifs, ok := st.(*ast.IfStmt); ok {
+						try(ifs, x.List[i+1:])
+					}
+				}
+			}
 			return true
 		})
 	})
@@ -315,8 +370,7 @@ func runW1(c *Ctx, s *Sink) {
 			if !ok || inc.Tok != token.INC {
 				return false
 			}
-			id, ok := inc.X.(*ast.Ident)
-			return ok && info.ObjectOf(id) == r.next
+			return refObj(info, inc.X) == r.next
 		}
 		isLookup := func(st ast.Stmt) (types.Object, bool) {
 			as, ok := st.(*ast.AssignStmt)
@@ -327,12 +381,10 @@ func runW1(c *Ctx, s *Sink) {
 			if !ok {
 				return nil, false
 			}
-			id, ok := ast.Unparen(ix.X).(*ast.Ident)
-			if !ok || info.ObjectOf(id) != r.buf {
+			if refObj(info, ix.X) != r.buf {
 				return nil, false
 			}
-			kid, ok := ast.Unparen(ix.Index).(*ast.Ident)
-			if !ok || info.ObjectOf(kid) != r.next {
+			if refObj(info, ix.Index) != r.next {
 				return nil, false
 			}
 			lid, _ := as.Lhs[0].(*ast.Ident)
@@ -417,7 +469,7 @@ func runW1(c *Ctx, s *Sink) {
 				if dphase == 1 {
 					if es, ok := st.(*ast.ExprStmt); ok {
 						if call, ok := es.X.(*ast.CallExpr); ok && len(call.Args) == 2 {
-							if id, ok := ast.Unparen(call.Args[1]).(*ast.Ident); ok && info.ObjectOf(id) == r.next && rootObj(info, call.Args[0]) == r.buf {
+							if refObj(info, call.Args[1]) == r.next && refObj(info, call.Args[0]) == r.buf {
 								lateDelete = true
 							}
 						}
@@ -426,11 +478,9 @@ func runW1(c *Ctx, s *Sink) {
 			default:
 				if as, ok := st.(*ast.AssignStmt); ok && len(as.Rhs) == 1 {
 					if ix, ok := ast.Unparen(as.Rhs[0]).(*ast.IndexExpr); ok {
-						if id, ok := ast.Unparen(ix.X).(*ast.Ident); ok && info.ObjectOf(id) == r.buf {
-							if kid, ok := ast.Unparen(ix.Index).(*ast.Ident); ok && info.ObjectOf(kid) == r.next && dphase == 1 {
-								relook = true
-								continue
-							}
+						if refObj(info, ix.X) == r.buf && refObj(info, ix.Index) == r.next && dphase == 1 {
+							relook = true
+							continue
 						}
 					}
 				}
@@ -457,7 +507,7 @@ func runW1(c *Ctx, s *Sink) {
 			for _, st := range eb.List {
 				if as, ok := st.(*ast.AssignStmt); ok && len(as.Lhs) == 1 && len(as.Rhs) == 1 {
 					if ix, ok := as.Lhs[0].(*ast.IndexExpr); ok {
-						if op := orderOperand(ix.Index); op != nil && rootObj(info, op) == r.itemObj && rootObj(info, as.Rhs[0]) == r.itemObj {
+						if op := numberOperand(info, ix.Index); op != nil && rootObj(info, op) == r.itemObj && rootObj(info, as.Rhs[0]) == r.itemObj {
 							storeOK = true
 						}
 					}
